@@ -10,6 +10,8 @@ package mimetype
 // detector (clones returned to callers have none). depth is a ghost field;
 // treeDepth bounds it, which gives the tree walk an input-independent measure.
 
+// the children list of a registered node is the only field written after publication
+//@ guarded MIME.children by mu
 //@ ghostfield MIME.depth int
 //@ ghostvar treeDepth int
 
@@ -27,8 +29,17 @@ package mimetype
 //@ func mimetype.(*MIME).Parent
 //@   requires m != nil
 //@   inline
+// a node answers to its MIME string and to each of its aliases
+//@ spec hasName(x, s) = x.mime == s || (exists i :: 0 <= i && i < len(x.aliases) && x.aliases[i] == s)
+
 //@ func mimetype.(*MIME).Is
 //@   requires m != nil
+//@   ensures [C15_is] result == (pmt(expectedMIME) == pmt(m.mime) || (exists i :: 0 <= i && i < len(m.aliases) && m.aliases[i] == pmt(expectedMIME)))
+//@   loop 1 invariant [C15_is_inv] forall j :: 0 <= j && j <= rangeindex ==> m.aliases[j] != expectedMIME
+
+//@ func mimetype.EqualsAny
+//@   ensures [C15_equalsany] result == (exists i :: 0 <= i && i < len(mimes) && pmt(s) == pmt(mimes[i]))
+//@   loop 1 invariant [C15_equalsany_inv] forall j :: 0 <= j && j <= rangeindex ==> s != pmt(mimes[j])
 //@ func mimetype.(*MIME).alias
 //@   requires m != nil
 //@   assigns m.aliases
@@ -47,6 +58,7 @@ package mimetype
 //@   ensures [C02_clone_mime] len(ps) == 0 ==> result.mime == m.mime
 
 //@ func mimetype.(*MIME).cloneHierarchy
+//@   requires held(R)
 //@   requires TI() && allocated(m) && isNode(m)
 //@   ensures result != nil && fresh(result)
 //@   ensures TI()
@@ -73,6 +85,7 @@ package mimetype
 //@ spec mirrors(x, n) = x != nil && x.extension == MIME(n).extension && x.aliases == MIME(n).aliases && x.detector == nil && len(x.children) == 0
 
 //@ func mimetype.(*MIME).match
+//@   requires held(R)
 //@   requires TI() && allocated(m) && isNode(m)
 //@   assume [leaf_step] forall n :: forall i :: 0 < n && n <= HEAPTOP() && isNode(n) && 0 <= i && i < len(MIME(n).children) && accepts(MIME(n).children[i], in, readLimit) && (forall j :: 0 <= j && j < i ==> !accepts(MIME(n).children[j], in, readLimit)) ==> leaf(n, in, readLimit) == leaf(MIME(n).children[i], in, readLimit)
 //@   assume [leaf_stop] forall n :: 0 < n && n <= HEAPTOP() && isNode(n) && (forall j :: 0 <= j && j < len(MIME(n).children) ==> !accepts(MIME(n).children[j], in, readLimit)) ==> leaf(n, in, readLimit) == n
@@ -86,15 +99,26 @@ package mimetype
 //@   loop 1 invariant [C03_first] forall j :: 0 <= j && j <= rangeindex ==> !accepts(m.children[j], in, readLimit)
 
 //@ func mimetype.(*MIME).flatten
+//@   requires held(R)
 //@   requires TI() && allocated(m) && isNode(m)
 //@   ensures forall i :: 0 <= i && i < len(result) ==> allocated(result[i]) && isNode(result[i])
 //@   decreases treeDepth - m.depth
 //@   loop 1 invariant forall i :: 0 <= i && i < len(out) ==> allocated(out[i]) && isNode(out[i])
 
+// hits(n, s): the depth-first search from n finds a node answering to s (defined as lookup's result)
+//@ ghostfun hits(int, bytes) bool
+
 //@ func mimetype.(*MIME).lookup
+//@   requires held(R)
 //@   requires TI() && allocated(m) && isNode(m)
 //@   ensures result == nil || allocated(result) && isNode(result)
+//@   ensures [C15_lookup_sound] result != nil ==> hasName(result, mime)
+//@   ensures [C15_lookup_self] hasName(m, mime) ==> result == m
+//@   ensures [C15_lookup_dfs] (result != nil) == (hasName(m, mime) || (exists j :: 0 <= j && j < len(m.children) && hits(m.children[j], mime)))
+//@   defines (result != nil) == hits(m, mime)
 //@   decreases treeDepth - m.depth
+//@   loop 1 invariant [C15_lookup_inv] forall j :: 0 <= j && j <= rangeindex ==> m.aliases[j] != mime
+//@   loop 2 invariant [C15_lookup_inv2] forall j :: 0 <= j && j <= rangeindex ==> !hits(m.children[j], mime)
 
 //@ func mimetype.(*MIME).Extend
 //@   requires TI() && allocated(m) && isNode(m) && detector != nil
@@ -114,12 +138,40 @@ package mimetype
 
 //@ func mimetype.Lookup
 //@   requires TI()
+//@   ensures [C15_lookup_sound] result != nil ==> result.mime == mime || (exists i :: 0 <= i && i < len(result.aliases) && result.aliases[i] == mime)
+
+// examined header: the first limit bytes (all of the input when the limit is 0)
 //@ func mimetype.Detect
 //@   requires TI()
 //@   ensures result != nil
+//@   ensures [C03C04_detect_cut] old(readLimit) > 0 && len(in) > old(readLimit) ==> mirrors(result, leaf(root, in[:old(readLimit)], old(readLimit)))
+//@   ensures [C03C04_detect_whole] !(old(readLimit) > 0 && len(in) > old(readLimit)) ==> mirrors(result, leaf(root, in, old(readLimit)))
+
+// reader_used / reader_n / reader_err: ghost record of what io.ReadFull / io.ReadAll took from the
+// reader in this call (set by their assumed contracts).
+//@ ghostvar reader_used int
+//@ ghostvar reader_n int
+//@ ghostvar reader_err int
+//@ spec readFailed() = reader_err != 0 && reader_err != ioEOF() && reader_err != ioUnexpectedEOF()
+
 //@ func mimetype.DetectReader
 //@   requires TI()
+//@   ghost entry: reader_err = 0
+//@   ghost return: readBytes = in
 //@   ensures result0 != nil
+//@   ensures [C05_limit] old(readLimit) > 0 ==> reader_used - old(reader_used) <= old(readLimit)
+//@   ensures [C02C05_err] result1 != nil ==> result0 == errMIME
+//@   ensures [C05_surface] readFailed() ==> result0 == errMIME && errid(result1) == reader_err
+//@   ensures [C05_noerr] !readFailed() ==> result1 == nil
+//@   ensures [C03C05_same_walk] result1 == nil ==> len(readBytes) == reader_n && mirrors(result0, leaf(root, readBytes, old(readLimit)))
+
 //@ func mimetype.DetectFile
 //@   requires TI()
 //@   ensures result0 != nil
+//@   ensures [C02C05_err] result1 != nil ==> result0 == errMIME
+
+// facts about the built-in tree, checked on the concretely executed package initialiser
+//@ func mimetype.init
+//@   ensures [C02_errmime] errMIME != nil && errMIME.mime == "application/octet-stream" && errMIME.parent == nil && errMIME.detector != nil && len(errMIME.children) == 0
+//@   ensures [C02_root] root != nil && root.mime == "application/octet-stream" && root.parent == nil && root.detector != nil
+//@   ensures [C07C17_text_last] len(root.children) > 0 && root.children[len(root.children)-1].mime == "text/plain" && (forall i :: 0 <= i && i < len(root.children) - 1 ==> root.children[i].mime != "text/plain")
